@@ -582,7 +582,8 @@ func c04WindowProgs() []*c04Prog {
 //   window-dir-listing    listings through directory handles opened beforehand (Readdirnames,
 //                         Readdir, whole and in pages of one, one directory or two directories one
 //                         after the other, two handles on one directory) ‖ Rename of the directory,
-//                         of a child out of / into / within it, onto an existing name, between the two
+//                         of a child out of / into / within it (also to a name that extends the old one), onto
+//                         an existing name, between the two
 //                         listed directories (and back), of a subdirectory with children, RemoveAll of
 //                         a child subtree, Remove, Mkdir, MkdirAll (two levels), Create, exclusive create;
 //   window-openfile-io    OpenFile with every combination of O_APPEND / O_TRUNC / O_CREATE (read-write,
@@ -632,6 +633,7 @@ func c04LockWindowProgs() []*c04Prog {
 		{[]string{oRename("/f", "/d/z")}, false},
 		{[]string{oRename("/d/x", "/d/z")}, false},
 		{[]string{oRename("/d/x", "/d/y")}, false}, // onto an existing name
+		{[]string{oRename("/d/x", "/d/xx")}, false}, // the new name begins with the old one as a string
 		{[]string{oRename("/d/x", "/e/x")}, false},
 		{[]string{oRename("/d/x", "/e/x"), oRename("/e/x", "/d/x")}, false},
 		{[]string{oRemove("/d/x")}, false},
@@ -733,9 +735,10 @@ func c04LockWindowProgs() []*c04Prog {
 // A handle on a directory lists it under the directory's mutex only (mem.File does not know
 // m.mu), so a namespace method is atomic for such listings only if it changes each directory
 // under ONE hold of that directory's mutex and related directories under simultaneous holds.
-// The cooperative scheduler never yields while a lock is held and cannot open these windows;
-// the programs below run under the real scheduler (stress mode, both tiers) and are sized so
-// that the windows are hit within a few hundred rounds:
+// The depth-0 mode of the cooperative scheduler never yields while a lock is held and cannot open
+// these windows (its lock-aware mode can: c04LockWindowProgs, small directories, every schedule
+// under a preemption bound); the programs below run under the REAL scheduler (stress mode, both
+// tiers), with large directories, and are sized so that the windows are hit within a few hundred rounds:
 //   dir-children  Rename of a directory with many children ‖ listings through handles on it
 //                 opened beforehand: every listing shows all the children (base names do not
 //                 change) - renameDescendants used to re-register them one by one;
